@@ -17,6 +17,7 @@ def generate(G):
     dense([1, 2], 2, 2, "Sigmoid", "quick", dom="D2", stubs=("exp",))
     dense([2, 1], 1, 2, "Softmax", "thorough", dom="D2", stubs=("exp",))
     dense([1], 1, 2, "Softmax", "quick", dom="D2", stubs=("exp",))
+    dense([1, 2, 1], 1, 2, "Softmax", "quick", dom="D2", stubs=("exp",))     # rank-3 input: softmax still over the last dimension
     dense([2], 2, 1, "Relu", "thorough")
     dense([3], 3, 2, "None", "thorough", dom="D2")
     dense([2, 3], 3, 1, "None", "thorough", dom="D2")
@@ -40,6 +41,7 @@ def generate(G):
     conv([1, 2, 2], [2, 1, 1, 2], (1, 1), "Relu", "quick")
     conv([2, 1, 2, 2], [2, 1, 2, 1], (1, 1), "None", "quick")       # batch 2 x 2 filters: bias broadcast [F,1,1] into [B,F,r,c]
     conv([1, 1, 2, 3], [1, 1, 1, 2], (1, 1), "None", "thorough")
+    conv([1, 3, 3], [1, 1, 2, 2], (1, 2), "None", "thorough")               # one output column, filter narrower than the image
     conv([1, 2, 4], [1, 1, 2, 2], (1, 2), "None", "thorough")
     conv([2, 2, 2], [1, 2, 2, 2], (1, 1), "Sigmoid", "thorough", stubs=("exp",))
 
@@ -61,6 +63,9 @@ def generate(G):
     for d, tier in (([2], "quick"), ([2, 2], "quick"), ([1, 4], "thorough"), ([4], "thorough")):
         G.ob("c15_mse_%s" % G.sname(d), "C15", "mse", "c15::mse(s, %s)" % G.rs(d), unwind=G.numel(d) + 3, tier=tier, stubs=("powf",),
              skeleton={"dims": d, "formula": "(target - output)^2 / element count; loss = sum"}, domains="output, target D4 (element counts are powers of two: exact)")
+    G.ob("c15_ce_unbatched_2", "C15", "cross_entropy", "c15::cross_entropy_unbatched(s, 2)", unwind=6, tier="quick", stubs=("ln",),
+         skeleton={"output": [1, 2], "target": [2], "formula": "-target * ln(output) / leading dimension of the output (1)"},
+         domains="output Dpos (ln table), target D2; tolerance 1e-9")
     for d, tier in (([2], "quick"), ([2, 2], "quick"), ([1, 2], "thorough"), ([2, 1, 2], "quick"), ([1, 2, 2], "thorough")):
         G.ob("c15_ce_%s" % G.sname(d), "C15", "cross_entropy", "c15::cross_entropy(s, %s)" % G.rs(d), unwind=G.numel(d) + 3, tier=tier,
              stubs=("ln",), skeleton={"dims": d, "formula": "-target * ln(output) / leading dimension; loss = sum"},
